@@ -5,6 +5,8 @@
  *   -DDEP=<id>               (optional) linked against plugin <id>; setup_N calls dep_fn_<id>
  *   -DNEST='"path"' -DNESTFN='"run_<id>"'
  *                            (optional) the constructor dlopen()s another plugin and calls into it
+ *   -DDTOR                   (optional) a destructor that calls fini_N (runs inside dlclose())
+ *   -DPAD=<bytes>            (optional) makes the image bigger, so that it is mapped elsewhere
  * The constructor runs while the dlopen() that loads the library has not returned yet.
  */
 #include <dlfcn.h>
@@ -65,6 +67,22 @@ __attribute__((noinline)) int F(run_)(int x)
 {
 	return x + state;
 }
+
+#ifdef DTOR
+__attribute__((noinline)) int F(fini_)(int x)
+{
+	return state -= x;
+}
+
+__attribute__((destructor, noinline)) static void F(dtor_)(void)
+{
+	F(fini_)(1);
+}
+#endif
+
+#ifdef PAD
+char F(pad_)[PAD] = { 1 };
+#endif
 
 __attribute__((noinline)) int F(dep_fn_)(int x)
 {
